@@ -123,6 +123,21 @@ def check_reaction(ctx, r, kind, tag):
 
     wit = {"rsmi": r, "variant": kind}
     ctx.count("variants/" + kind)
+    gap = R.representation_gap(r)
+    if gap:
+        # recorded limits of the graph layer (no isotope label, numeric bond order only): only the string round trip is judged
+        ctx.count("reactions_with_representation_gap")
+        try:
+            r2 = its_to_rsmi(rsmi_to_its(r))
+        except Exception as e:
+            r2 = None
+        a, b = r.split(">>")
+        ok = isinstance(r2, str) and ">>" in r2 and R.fragments_canonical(r2.split(">>")[0]) == R.fragments_canonical(a) \
+            and R.fragments_canonical(r2.split(">>")[1]) == R.fragments_canonical(b)
+        if not ok:
+            ctx.violation("roundtrip-sides", {**wit, "out": r2}, f"round trip changed the unmapped sides: {r2}", finding=gap)
+        ctx.case(("rx", r), nontrivial=True, sample={"space": tag, "variant": kind, "rsmi": r, "roundtrip": r2})
+        return
     if ctx.rng.random() < 0.3:
         # history: the same text converted earlier with a reduced attribute selection must not influence the
         # default conversion that follows
@@ -317,6 +332,15 @@ def check_synthetic(ctx, G, H, tag):
              sample={"space": tag, **wit} if ctx.rng.random() < 0.002 else None)
 
 
+GAP_RXNS = [
+    "[Pd:1].[P:2]([CH3:3])([CH3:4])[CH3:5]>>[Pd:1]<-[P:2]([CH3:3])([CH3:4])[CH3:5]",
+    "[Pt:1].[CH3:2][S:3][CH3:4]>>[CH3:2][S:3]([CH3:4])->[Pt:1]",
+    "[13CH3:1][Cl:2].[OH-:3]>>[13CH3:1][OH:3].[Cl-:2]",
+    "[CH3:1][C:2](=[O:3])[18OH:4].[CH3:5][OH:6]>>[CH3:1][C:2](=[O:3])[O:6][CH3:5].[18OH2:4]",
+    "[2H:1][O:2][2H:3].[CH3:4][O-:5]>>[2H:1][O-:2].[CH3:4][O:5][2H:3]",
+]
+
+
 def run(ctx):
     install()
     rng = ctx.rng
@@ -347,6 +371,10 @@ def run(ctx):
             ctx.count("generated/" + tg)
         check_reaction(ctx, r, "generated", "generated explicit-hydrogen reactions")
         check_reaction(ctx, corpus.shuffle_fragments(corpus.renumber(r, rng), rng), "generated", "generated explicit-hydrogen reactions")
+    for i, r in enumerate(GAP_RXNS):
+        if ctx.mine(i):
+            check_reaction(ctx, r, "identity", "isotope-labelled / dative-bond reactions")
+            check_reaction(ctx, corpus.renumber(r, rng), "renumber", "isotope-labelled / dative-bond reactions")
     n = 500 if ctx.quick else 20000
     for t in range(n):
         if ctx.out_of_time():
